@@ -10,6 +10,19 @@ def parseFlags (s : String) : Option (List Server) :=
 
 def judgeUpsel (fields : List String) : String :=
   match fields with
+  | "rrpipe" :: counts =>
+    -- round robin through the whole request path: per-server counts of sequential first-time requests differ by ≤ 1
+    match counts.mapM String.toNat? with
+    | some cs =>
+      let mx := cs.foldl max 0
+      let mn := cs.foldl min mx
+      if mx - mn ≤ 1 ∧ cs.foldl (· + ·) 0 = 12 then "ok rrpipe 1" else "ok rrpipe 1 TRIP rr_unbalanced"
+    | none => "BADLINE upsel rrpipe"
+  | ["degraded", code, forwarded] =>
+    -- a server that fails its HTTP health check gets no client request; the client gets a 5xx
+    let t1 := if forwarded ≠ "0" then " TRIP sent_to_unhealthy" else ""
+    let t2 := match code.toNat? with | some c => if c < 500 then " TRIP no_5xx" else "" | none => " TRIP no_5xx"
+    s!"ok degraded 1{t1}{t2}"
   | ["alldown", c1, _m1, c2, _m2, c3, _m3, c4, _m4] =>
     -- no server healthy: every request (also repeated ones for the same URL) gets a 5xx, none is left hanging
     -- (code -1 = no answer within 3 s); once the server is back the URL is served
